@@ -114,6 +114,8 @@ type Refinement struct {
 	Coupling    ast.Expr
 	Assuming    ast.Expr // extra hypothesis of the refinement (trusted; listed in the evidence)
 	AssumingSrc string
+	Hidden      []ast.Expr // implementation-private locations exempt from the interface frame (encapsulation assumption)
+	HiddenSrc   string
 	Where       string
 	Pkg         string
 	Props       []string
@@ -599,6 +601,11 @@ func (sp *Specs) loadSpecFile(path string, external bool) error {
 			cur.Allocs[idx] = cl
 		case "refine":
 			// refine <iface method key> by <impl func key> [coupling <pred>(recv)]
+			hidden := ""
+			if i := strings.Index(rest, " hidden "); i >= 0 {
+				hidden = rest[i+len(" hidden "):]
+				rest = rest[:i]
+			}
 			assuming := ""
 			if i := strings.Index(rest, " assuming "); i >= 0 {
 				assuming = rest[i+len(" assuming "):]
@@ -624,6 +631,17 @@ func (sp *Specs) loadSpecFile(path string, external bool) error {
 				rf.Assuming = e
 				rf.AssumingSrc = assuming
 				sp.Tokens["assuming"]++
+			}
+			if hidden != "" {
+				for _, h := range splitTop(hidden, ",") {
+					e, err := parseSpecExpr(strings.TrimSpace(h))
+					if err != nil {
+						return fmt.Errorf("%s: %v", where, err)
+					}
+					rf.Hidden = append(rf.Hidden, e)
+				}
+				rf.HiddenSrc = hidden
+				sp.Tokens["hidden"]++
 			}
 			sp.Refinements = append(sp.Refinements, rf)
 		case "assignset":
